@@ -32,6 +32,7 @@ EXPLANATION += ' Added in the third session (round-3 seeds and the findings they
 EXPLANATION += ' Added in the fourth round of seeded changes: ' + "D5 now decided by exit_coverage (any recognised scope-exit form); D12: after a task has destroyed itself nothing that can raise a user exception runs in the same call, and a tree fold whose join can throw gives the node its reference back on the exceptional path; D13: a wait reference reserved by a base-class constructor is released by its destructor when a derived constructor can throw, and small_object_allocator::new_object returns the storage when the constructor throws; D4 also: an object kept in single-slot raw storage (aligned_space<T>) is destroyed by its owner's destructor only if every constructor constructs it or a member flag that is raised somewhere guards the call."
 EXPLANATION += ' Added in the fifth round: ' + 'D4 also: the lazily split body of parallel_reduce - wherever it is constructed - is announced by has_right_zombie on every path after the construction and never before it; D11 also: a scope-exit handler deletes a self-deleting task object that escapes inside the region it covers only under a guard.'
 EXPLANATION += ' Added in the sixth (partial) seeding round: ' + 'D2 also (shared with C04-D3): when a cancellation is propagated the climb through a context\'s parent chain ends only at the cancelled source or at the root - every other edge out of that loop is dominated by the ancestor == &src edge.'
+EXPLANATION += ' D2 also: in ~task_group_base every wait that can run during stack unwinding (not dominated by the no-unwinding edge) stands inside a try block whose catch-all handler does not rethrow; D1 knows two named, checked swallowing handlers (optional growth in concurrent_hash_map::lookup, the destructor wait during unwinding).'
 ASSUMPTIONS = ['the try_call/raii_guard idiom behaves as its definition in _template_helpers.h (checked structurally in D5)',
                'task classes not instantiated by the drivers are not analysed']
 ND = ['"one that was actually thrown" under all throw positions', 'timing of bodies vs. the rethrow',
@@ -90,6 +91,7 @@ def run(facts, rep):
     # "cancels the rest of that group": nested groups two or more levels down are reached (shared with C04-D3)
     from rules.C04 import d3_ancestor_walk_is_complete
     d3_ancestor_walk_is_complete(facts, rep, clause='D2')
+    d2_destructor_wait_during_unwinding(facts, rep)
 
 
 def catch_blocks(fn):
@@ -107,6 +109,10 @@ OPTIONAL_STEP_HANDLERS = {
         ('enable_segment',),
         'it guards only the optional growth that follows a completed insertion: the operation has succeeded and reports so (C10-D5), '
         'enable_segment takes its own mark back, and a later insertion retries; no user body runs in the guarded region'),
+    'tbb::detail::d2::task_group_base::(dtor)': (
+        ('wait', 'get_context', 'context'),
+        'it guards only the destructor\'s own wait on the path taken during stack unwinding: another exception is already in flight, a second '
+        'one leaving the destructor would terminate the program (C03-D2 dtor-wait-unwinding); nothing can report it any more'),
 }
 
 
@@ -993,3 +999,46 @@ def d11_handlers_do_not_delete_what_they_may_not_own(facts, rep):
                            'has been handed to the tree / the scheduler an exception from a later call makes the handler destroy it a second '
                            'time' % (oname_, tcls.split('::')[-1]), ln=node.get('ln'), key_extra='handler-delete|%s' % oname_)
     rep.note('D11 handlers deleting self-deleting task objects: %d' % n)
+
+
+def d2_destructor_wait_during_unwinding(facts, rep):
+    """"rethrows one exception ... from the call that waits for the group": a task_group destroyed by stack unwinding (an exception
+    thrown between run() and wait()) still has to wait for its tasks - ~task_group_base does so and, knowing that it runs during
+    unwinding, does not report the missing wait.  But its internal wait rethrows the exception a task of the group has thrown
+    meanwhile: a second exception leaves a destructor while the first is in flight and the program is terminated - the exception
+    in flight never reaches its handler.  Rule: in ~task_group_base every wait that can run while stack_unwinding_in_progress
+    holds (not dominated by the edge on which it is false) stands inside a try block whose handler does not rethrow."""
+    n = 0
+    for fn in facts.fns.values():
+        if fn.p != 'tbb::detail::d2::task_group_base::(dtor)':
+            continue
+        defs = Defs(fn)
+        waits = [(pos, node) for pos, s, node, d in calls(fn) if (d or {}).get('n') == 'wait' and (d or {}).get('p', '').startswith('tbb::detail::d1::wait')]
+        if not waits:
+            raise AnalysisBroken('~task_group_base: the internal wait was not found')
+
+        def not_unwinding(a, truth):
+            src = resolve_cond_source(fn, defs, a)
+            has = any(fn.nodes[x].get('k') == 'call' and (fn.callee(x) or {}).get('n') in ('uncaught_exceptions', 'uncaught_exception') for x in fn.subtree(src))
+            if not has:
+                return False
+            nd = fn.n(src)
+            # `uncaught_exceptions() > 0` / `uncaught_exception()`: unwinding when true
+            return not truth
+        safe = edges_where(fn, not_unwinding)
+        if not safe:
+            raise AnalysisBroken('~task_group_base: the stack-unwinding test was not found')
+        for pos, node in waits:
+            n += 1
+            if dominated_by_edges(fn, pos, safe)[0]:
+                ok = True
+            else:
+                catches = [c for c in fn.nodes if c and c.get('k') == 'catch' and c.get('try') == node.get('tr')] if node.get('tr') is not None else []
+                rethrows = any(nd and nd.get('k') == 'throw' and 'sub' not in nd and nd.get('ca') in set(c['s'] for c in catches) for nd in fn.nodes)
+                ok = bool(catches) and all(c.get('ell') for c in catches) and not rethrows
+            rep.ob('D2', 'K9', fn, 'the wait inside ~task_group_base cannot throw while another exception is in flight', ok,
+                   'd1::wait at line %s can run during stack unwinding and rethrows the exception a task of the group has thrown: a second exception '
+                   'leaves the destructor, std::terminate is called and the exception in flight never reaches its handler' % node.get('ln'),
+                   ln=node.get('ln'), key_extra='dtor-wait-unwinding')
+    if n < 1:
+        raise AnalysisBroken('~task_group_base not instantiated')
